@@ -536,6 +536,117 @@ def build_omp(b):
     return b.build_engine("omp", ["gen.c", "eng/engutil.c", "eng/omp.c"], vs, "mon", core=("heap.c", "die.c", "fs.c", "sched.c")), vs
 
 
+# ------------------------------------------------------------------ C15 (engine thr)
+def build_thr(b):
+    vs = [Variant("ts", mmc=0, mzdcache=0, flavour="mon", knobs=True),
+          Variant("def", flavour="mon", knobs=True)]
+    b.build_variants(vs)
+    return b.build_engine("thr", ["gen.c", "eng/engutil.c", "eng/thr.c"], vs, "mon", core=("heap.c", "die.c", "fs.c", "sched.c")), vs
+
+
+def check_C15(tier, seed, replay=None):
+    t0 = time.time()
+    rep = Report("C15")
+    b = Builder()
+    try:
+        exe, vs = build_thr(b)
+        sym = Symbolizer(exe)
+        if replay:
+            r = exec_prog(exe, replay)
+            print(r.get("raw"))
+            ok = r.get("cls", "") == "ok"
+            if not ok:
+                print("VIOLATION property=%s replay=%s" % (r.get("prop", "C15"), replay))
+            return 0 if ok else 1
+        total = 1600 if tier == "quick" else 48000
+        outdir = os.path.join(b.scratch, "out")
+        lines, crashes = fanout(exe, seed, total, tier, outdir, 100 if tier == "quick" else 1400)
+        ctl_lines, cr2 = fanout(exe, seed, 32, tier, os.path.join(b.scratch, "out_ctl"), 100, extra=["control"])
+        for cc in crashes + cr2:
+            rep.harness("thr worker %d exited with %d: %s" % (cc["worker"], cc["rc"], cc["tail"][-3:]))
+        hashes, vl, classes, T = [], [], {}, {}
+        thr_hist = [0] * 16
+        for w, l in lines:
+            tag, d = kv(l)
+            if tag == "R":
+                hashes.append((int(d["idx"]), d["hash"]))
+                classes[d["class"]] = classes.get(d["class"], 0) + 1
+            elif tag == "T":
+                for kk, v in d.items():
+                    if kk == "thr_hist":
+                        for i, x in enumerate(v.split(",")):
+                            thr_hist[i] += int(x)
+                    else:
+                        T[kk] = T.get(kk, 0) + int(v)
+            elif tag == "V":
+                vl.append(d)
+        ctl_flagged = ctl_runs = 0
+        for w, l in ctl_lines:
+            tag, d = kv(l)
+            if tag == "T":
+                ctl_flagged += int(d.get("races_control", 0))
+            elif tag == "R":
+                ctl_runs += 1
+            elif tag == "V":
+                rep.harness("control (default, non-thread-safe build driven by several threads) not flagged: %s" % l[:200])
+        if ctl_flagged == 0:
+            rep.harness("control: no race reported for the non-thread-safe build")
+        if not hashes:
+            rep.harness("no run")
+        if classes.get("SKIPPED", 0) > len(hashes) // 10:
+            rep.harness("generator produced %d invalid programs" % classes["SKIPPED"])
+
+        def sig(v, s):
+            who = v.get("func", "-")
+            if v.get("class") == "data_race":
+                who = "+".join(sorted(set([sym.func(v.get("site", "0x0")), sym.func(v.get("site2", "0x0"))])))
+            return "thr|threads|%s|%s" % (v.get("class"), who)
+        for i, v in enumerate(vl[:12]):
+            if v.get("class") in ("thread_result_differs_from_solo_run", "data_race"):
+                base = exec_prog(exe, v["file"])
+                ex = shrink_schedule(exe, v["file"], base, outdir, str(i))
+                if ex:
+                    v["file"] = ex
+        process_violations(rep, exe, vl, None, outdir, seed, sig,
+                           keep_pred=lambda l: l.startswith("#") or l.startswith("schedcfg") or l.startswith("lib ") or l.startswith("control"))
+        samples = []
+        per = (total + driver.NWORKERS - 1) // driver.NWORKERS
+        for w in (0, 3, 9):
+            p = os.path.join(outdir, "cur-%d.prog" % (w * per))
+            if os.path.exists(p):
+                txt = open(p).read().split("\n")
+                samples.append("\n".join(txt[:30]) + ("\n... (%d lines)" % len(txt) if len(txt) > 30 else ""))
+        wall = time.time() - t0
+        mine_viol = [v for v in rep.violations if v[0] == "C15"]
+        cov = dict(
+            evaluations=len(hashes), distinct_nontrivial=T.get("interleavings", 0),
+            rule="one evaluation = one forked run: every thread's call sequence solo, all threads without preemption, all threads under one seeded schedule (random-walk or PCT-style preemption "
+                 "at memory accesses, function entries and heap calls; seeded creation order); distinct_nontrivial = distinct interleavings = distinct hashes of the (yield class, task) sequence at switch points (per worker, summed)",
+            samples=samples, outcome_classes=classes, simulated_events=T.get("events", 0), context_switches=T.get("switches", 0), preemptions=T.get("preemptions", 0),
+            simulated_threads=T.get("threads", 0), library_calls_by_threads=T.get("calls", 0), threads_per_run_histogram={str(i + 1): thr_hist[i] for i in range(16)},
+            granules_read_by_several_threads_never_written=T.get("shared_readonly_granules", 0),
+            fault_kinds_fired={"preemption (involuntary switch between two memory accesses)": T.get("preemptions", 0)},
+            control=dict(runs=ctl_runs, conflicting_accesses_reported=ctl_flagged, what="default (non-thread-safe) build driven by 2-4 simulated threads: the monitor must report conflicts"),
+            runs_per_hour=int(len(hashes) / max(wall, 1e-3) * 3600), seeds_per_hour=int(len(hashes) / max(wall, 1e-3) * 3600),
+            simulated_time="logical time only: %d simulated events; the library has no clock" % T.get("events", 0),
+            run_hash_digest=digest(hashes), variants=[v.describe() for v in vs], source_sha256=b.sha,
+            real_components=["the thread-safe build of the library (every routine of the operation table except file I/O)"],
+            simulated_components=["caller threads (ucontext tasks, one runs at a time)", "scheduler", "heap front end", "access monitor (vector clocks; ordering only from thread creation/join and free->malloc)"])
+        write_evidence("C15", tier, seed, "exploration", cov,
+                       ["mzd_randomize (libc random(), documented shared hidden state) and file I/O are excluded from the thread workloads",
+                        "one task runs at a time: interleavings at instrumented-access granularity, no weak-memory effects",
+                        "the allocator behind the seam is assumed thread-safe (as malloc is)"],
+                       wall, len(mine_viol))
+        print("C15 %s: %d runs, %d threads, %d calls, %d simulated events, %d switches, %d interleavings, classes %s, control races %d, %.1fs"
+              % (tier, len(hashes), T.get("threads", 0), T.get("calls", 0), T.get("events", 0), T.get("switches", 0), T.get("interleavings", 0), classes, ctl_flagged, wall))
+        return rep.exit_code()
+    except BuildError as e:
+        print("HARNESS-ERROR: build failed: %s" % e)
+        return 2
+    finally:
+        b.cleanup()
+
+
 def shrink_schedule(exe, path, base, outdir, tag):
     """Turn the seeded schedule of a violating program into explicit decisions and minimise them (ddmin over
     `sched` lines).  Returns the path of the explicit program if it reproduces, else None."""
@@ -566,7 +677,7 @@ def check_C16(tier, seed, replay=None):
             if not ok:
                 print("VIOLATION property=%s replay=%s" % (r.get("prop", "C16"), replay))
             return 0 if ok else 1
-        total = 18 * (40 if tier == "quick" else 1200)
+        total = 18 * (160 if tier == "quick" else 2400)
         outdir = os.path.join(b.scratch, "out")
         lines, crashes = fanout(exe, seed, total, tier, outdir, 100 if tier == "quick" else 1400)
         ctl_lines, cr2 = fanout(exe, seed, 32, tier, os.path.join(b.scratch, "out_ctl"), 100, extra=["control"])
@@ -674,4 +785,4 @@ def check_C11(tier, seed, replay=None):
     return check_hist("C11", tier, seed, replay)
 
 
-CHECKS = {"C20": check_C20, "C18": check_C18, "C14": check_C14, "C10": check_C10, "C11": check_C11, "C16": check_C16}
+CHECKS = {"C20": check_C20, "C18": check_C18, "C14": check_C14, "C10": check_C10, "C11": check_C11, "C16": check_C16, "C15": check_C15}
